@@ -111,6 +111,12 @@ CHECKS = {
              "projections, identity tokens, argument objects, a peer instance and class defaults; TLC judges each event: for element helpers of list/set/dict/KeyedList attributes the observed attribute equals the plain container operation of the model (append, replace/insert "
              "at Python index, assign key, add, replace by transformed value, remove by value/index/key; by-index defaulting; key promotion; keyword build/update of spec items).",
         note=TB, technique="TLA+ executable model of the container operations; spec->code replay of every (state, action); TLC compares observed with Step", ref="3 C06"),
+    "C07": dict(
+        text="Same pipeline as C05/C06 on frozen scenarios (frozen root with nested/list attributes; frozen child inside a non-frozen parent, alone and in a list): MC of SpecClass.tla "
+             "with the frozen rule in Step (in-place forms rejected, no-op forms allowed), then every (state, action) on the real frozen classes; TLC judges that the frozen "
+             "receiver's projection and identity map never change, that in-place calls are rejected, that copy-on-write calls return a distinct instance, and -- the twin "
+             "bisimulation -- that result and outcome equal the same Step that governs the non-frozen scenarios.",
+        note=TB, technique="TLA+ spec + TLC model checking; spec->code replay of every (state, action) on frozen classes; TLC-judged", ref="3 C07"),
 }
 
 PENDING = "check not built yet in this round (see DESIGN.md section 3 for the planned TLA+ module)"
